@@ -31,7 +31,8 @@ MONITORS = ["enum_roundtrip", "model_equality", "roundtrip", "restringify", "loa
 REQUIRED = ["key_only", "multi_value_with_colons", "value_has_colon", "value_has_semicolon", "value_has_backslash",
             "value_has_dslash", "value_has_lf", "value_has_crlf", "extradata", "charts_reordered", "crosses_4096",
             "backslash_without_other_meta", "str_mid_history_then_extradata_edit", "corpus_start",
-            "meta_token_on_8192_boundary", "chart_fields_assigned_out_of_order"]
+            "meta_token_on_8192_boundary", "chart_fields_assigned_out_of_order", "first_key_is_a_near_miss_of_VERSION",
+            "property_key_is_a_near_miss_of_NOTES"]
 
 
 def anchors():
@@ -233,6 +234,10 @@ def check(ctx, case):
     first_key = next(iter(m.d), None)
     if first_key != "VERSION":
         ctx.mon("loads_detects_sm")
+        if first_key is not None and first_key != "VERSION" and "VERSION" in first_key:
+            ctx.feat("first_key_is_a_near_miss_of_VERSION")
+        if "NOTES2" in m.d or "NOTES3" in m.d or "NOTES " in m.d:
+            ctx.feat("property_key_is_a_near_miss_of_NOTES")
         try:
             l = simfile.loads(text)
             ctx.expect(type(l) is SMSimfile and l == r, "loads:not-detected-as-sm-or-differs", type=type(l).__name__)
